@@ -168,7 +168,9 @@ func (c *IAMCache) GetUserAccount(access string) (Account, error) {
 		return Account{}, err
 	}
 
-	c.iamcache.set(access, a)
+	// the key has to outlive the request as well: without a copy it can
+	// point into the request buffer that Fiber reuses
+	c.iamcache.set(strings.Clone(access), a)
 	return a, nil
 }
 
